@@ -14,5 +14,11 @@ echo "== demo with patch (expect non-zero)"; (cd $D && bash ./demo.sh $WT/_build
 echo "== demo without patch (expect 0)"; (cd $D && bash ./demo.sh /repo/_build >/dev/null 2>&1; echo "rc=$?")
 echo "== check $PROP against the change"
 O=$(mktemp -d /tmp/seedout_XXXX)
-(cd /verif && VERIF_REPO=$WT VERIF_OUT=$O bin/check $PROP 2>&1 | grep -v " ok " | cut -c1-260 | tail -6)
+# the change is applied to a scratch worktree at /repo's CURRENT head (fixes made since the seed was written stay in), falling back
+# to the agent's own worktree when the patch no longer applies
+M=/tmp/mut; T=$WT
+if [ -d $M ]; then git -C $M checkout -q . ; git -C $M checkout -q --detach $(git -C /repo rev-parse HEAD) 2>/dev/null; if git -C $M apply $D/patch.diff 2>/dev/null; then T=$M; fi; fi
+echo "   (checked tree: $T)"
+(cd /verif && VERIF_REPO=$T VERIF_OUT=$O bin/check $PROP 2>&1 | grep -v " ok " | cut -c1-260 | tail -6)
+[ -d $M ] && git -C $M checkout -q .
 rm -rf $O
